@@ -12,6 +12,7 @@ import (
 	"github.com/ory/keto/internal/namespace/ast"
 	"github.com/ory/keto/internal/relationtuple"
 	"github.com/ory/keto/internal/x"
+	"github.com/ory/keto/internal/x/graph"
 	"github.com/ory/keto/ketoapi"
 )
 
@@ -54,7 +55,13 @@ func (e *Engine) checkSubjectSetRewrite(
 	case ast.OperatorOr:
 		op = or
 	case ast.OperatorAnd:
-		op = and
+		// Every operand of an intersection has to be answered on its own. It
+		// must not skip subject sets that a sibling operand or an enclosing
+		// subject expansion has already visited.
+		op = func(ctx context.Context, checks []checkgroup.CheckFunc) checkgroup.Result {
+			return and(graph.ResetVisited(ctx), checks)
+		}
+		ctx = graph.ResetVisited(ctx)
 	default:
 		return checkNotImplemented
 	}
@@ -150,6 +157,10 @@ func (e *Engine) checkInverted(
 
 	var check checkgroup.CheckFunc
 
+	// The inverted check has to be answered on its own, see the comment on
+	// ast.OperatorAnd in checkSubjectSetRewrite.
+	ctx = graph.ResetVisited(ctx)
+
 	switch c := inverted.Child.(type) {
 
 	case *ast.TupleToSubjectSet:
@@ -182,7 +193,7 @@ func (e *Engine) checkInverted(
 
 	return func(ctx context.Context, resultCh chan<- checkgroup.Result) {
 		innerCh := make(chan checkgroup.Result)
-		go check(ctx, innerCh)
+		go check(graph.ResetVisited(ctx), innerCh)
 		select {
 		case result := <-innerCh:
 			// invert result here, but never turn a failed check into a positive answer
